@@ -1,5 +1,6 @@
 from kawin.solver.Iterators import ExplicitEulerIterator, RK4Iterator
 from enum import Enum
+import math
 import time
 
 class SolverType(Enum):
@@ -190,6 +191,10 @@ class DESolver:
 
         self._dtmin = self.dtmin * (tf - t0)
         self._dtmax = self.dtmax * (tf - t0)
+        #A step below the floating point resolution of the time axis would leave currTime unchanged
+        #    (currTime + dt == currTime) and the loop would never end, so the minimum step
+        #    is at least one unit of that resolution
+        self._dtmin = max(self._dtmin, math.ulp(max(abs(t0), abs(tf))))
         currTime = t0
         i = 0
         timeStart = time.time()
